@@ -106,7 +106,7 @@ def oracle(p):
                         okk = True
                         if want[0] == 0:
                             okk = got == ('accept',) or got == (('refuse',) if inp == 4 else ('conn', 1)) or (inp == 4 and got[0] == 'conn') \
-                                or got == ('conn', 3)        # flow-control violations are judged by C03 / C04
+                                or got in (('conn', 3), ('conn', 6))        # flow-control / frame-size violations are judged by C03 / C04 / C18
                         elif want[0] == 1:
                             okk = got[0] == 'conn' and inp == 4
                         elif want[0] == 2:
